@@ -4,7 +4,7 @@
    every constructor call made while generating a value is recorded with its arguments and its result).
    Definitions only. *)
 From Coq Require Import String List Ascii ZArith NArith Bool.
-From QRB Require Import Base.Bytes Model.W Model.Values Model.Compile Model.Handle Model.Api.
+From QRB Require Import Base.Bytes Model.W Model.Values Model.Compile Model.Handle Model.Api Model.JsonMap.
 Import ListNotations.
 Local Open Scope string_scope.
 Local Open Scope list_scope.
@@ -78,7 +78,9 @@ Section Ctor.
      ("Greatest", fun a => match a with [AExp e; AExps r] => Some (func_exp "GREATEST" (e :: r)) | _ => None end);
      ("Least", fun a => match a with [AExp e; AExps r] => Some (func_exp "LEAST" (e :: r)) | _ => None end);
      ("RowsFrom", fun a => match a with [AExp f; AExps r] => Some (ERowsFrom (f :: r) false) | _ => None end);
-     ("NewRowsFromBuilder", fun a => match a with [AExps r] => Some (ERowsFrom r false) | _ => None end)].
+     ("NewRowsFromBuilder", fun a => match a with [AExps r] => Some (ERowsFrom r false) | _ => None end);
+     (* builder.JsonBuildObject(isJsonB): the empty JSON object of the chosen flavour *)
+     ("JsonBuildObject", fun a => match a with [ABool b] => Some (EJson b []) | _ => None end)].
 
   (* a CASE under construction is represented by the value its End() would give *)
   Definition case_ctors : list (string * (list aarg -> option exp)) :=
@@ -142,6 +144,15 @@ Section Ctor.
          ("OrderByAggExpBuilder.Desc", fun a => match a with [] => ob (fun o => ob_set V o "DESC" (ob_nulls o)) | _ => None end);
          ("OrderByAggExpBuilder.NullsFirst", fun a => match a with [] => ob (fun o => ob_set V o (ob_order o) "NULLS FIRST") | _ => None end);
          ("OrderByAggExpBuilder.NullsLast", fun a => match a with [] => ob (fun o => ob_set V o (ob_order o) "NULLS LAST") | _ => None end)]
+    (* the JSON object builder (builder/json_build_object.go) over the slice map of Model/JsonMap.v: Prop sets
+       (replace in place or append), PropIf is Prop or the receiver, Unset deletes; the flavour is kept *)
+    | EJson isb props =>
+        [("JsonBuildObjectBuilder.Prop", fun a => match a with
+            | [AStr k; AExp v] => Some (EJson isb (jset props k v)) | _ => None end);
+         ("JsonBuildObjectBuilder.PropIf", fun a => match a with
+            | [ABool c; AStr k; AExp v] => Some (EJson isb (if c then jset props k v else props)) | _ => None end);
+         ("JsonBuildObjectBuilder.Unset", fun a => match a with
+            | [AStr k] => Some (EJson isb (jdel props k)) | _ => None end)]
     | ERowsFrom fns _ =>
         [("RowsFromBuilder.WithOrdinality", fun a => match a with [] => Some (ERowsFrom fns true) | _ => None end)]
     | _ => []
